@@ -74,7 +74,8 @@ def ensure_facts(cfg='default', repo=None, quiet=False):
         except OSError:
             pass
         return d, info
-    lock = open(os.path.join(CACHE, 'extract.lock'), 'w')
+    # one extraction at a time per cargo target directory (the self-test runs several workers, each with its own)
+    lock = open(os.path.join(CACHE, 'extract%s.lock' % os.environ.get('VERIF_WORKER', '')), 'w')
     fcntl.flock(lock, fcntl.LOCK_EX)
     try:
         if os.path.exists(done) and os.path.exists(os.path.join(d, 'ast.json')):
